@@ -403,8 +403,53 @@ def reader_header(q, cx, R):
     return out
 
 
+# ------------------------------------------------------------------------------------------------ R03.10
+_DROPPING = ("filter", "filter_map", "skip", "skip_while", "take", "take_while", "step_by", "nth", "last", "find", "find_map",
+             "flat_map", "dedup", "dedup_by", "dedup_by_key", "unique", "unique_by")
+_DROPPING_MUT = ("retain", "retain_mut", "truncate", "drain", "remove", "swap_remove", "pop", "clear", "dedup", "dedup_by", "dedup_by_key",
+                 "split_off", "shift_remove", "swap_remove_index", "shift_remove_index")
+
+
+def _complete_walk(R, fn, for_node, o, key):
+    """R03.10: a writer loop over a map of the model emits one row per entry: nothing between the map iteration and the loop drops entries
+    (filter/skip/take/.. in the iterator chain, retain/truncate/.. on the collected vector) and the loop body has no `continue`/`break`
+    (seed C03-5: a filter on nameless parameters loses their comment)."""
+    rid = "R03.10"
+    bad = []
+    hops = o["chain"].hops
+    last = max([i for i, h in enumerate(hops) if h[0] == "mapiter"] or [-1])
+    for h in hops[last + 1:]:
+        if h[0] == "call" and h[1] in _DROPPING:
+            bad.append(".%s(..) in the iterator chain" % h[1])
+    if o["local"] is not None:
+        for n in H.walk(fn.root):
+            if n is for_node:
+                break
+            if n.get("k") == "mcall" and n["name"] in _DROPPING_MUT:
+                loc = H.local_of(n["recv"])
+                if loc and loc[0] == o["local"]:
+                    bad.append("%s.%s(..) before the loop" % (loc[1], n["name"]))
+    stack = [for_node["body"]]
+    while stack:
+        n = stack.pop()
+        if not isinstance(n, dict):
+            continue
+        k = n.get("k")
+        if k in ("for", "loop", "while", "closure") and n is not for_node["body"]:
+            # a `continue`/`break` of an inner loop (or a closure) does not leave this one; inner model loops are instances of their own
+            continue
+        if k in ("continue", "break"):
+            bad.append("`%s` in the loop body" % k)
+            continue
+        stack.extend(H.children(n))
+    R.inst(rid, key, not bad, sp=for_node.get("sp"), expect="one row per entry of the map: no dropping adaptor, no dropping mutation, no continue/break",
+           got=bad or "complete", detail="an entry that is skipped by the writer (with its comment and children) is lost by write -> read")
+
+
 # ------------------------------------------------------------------------------------------------ R03.1 / R03.2
 def r03_1_2(q, R, cx):
+    R.rule("R03.10", "complete walk: every writer loop over a map of the model emits a row for every entry - no filter/skip/take/.. between the map "
+                     "iteration and the loop, no retain/truncate/.. on the collected vector, no continue/break in the loop body")
     R.rule("R03.1", "every loop in tiny_v2::write (helpers inlined) that emits text while walking an IndexMap/HashMap walks a "
                     "collection that was sorted after it was collected (order taint: map iteration -> sort -> write)")
     R.rule("R03.2", "the sort key of each such loop is a place of the element whose type has a derived Ord and which contains every "
@@ -437,9 +482,11 @@ def r03_1_2(q, R, cx):
                    expect="<collected>.sort*(..) before the loop", got=("sorted by " + H.render(o["sorted"])[:80]) if o["sorted"] else "no sort")
             if o["sorted"] is not None:
                 U.sort_key_total(q, R, "R03.2", cx, fn, o, key.replace("loop:", "sortkey:"))
+            _complete_walk(R, fn, node, o, key.replace("loop:", "walk:"))
     # closures passed to iterator adaptors that write (for_each etc.) are rejected by the term extractor (unrecognised)
     R.floor("R03.1", 4)
     R.floor("R03.2", 4)
+    R.floor("R03.10", 4)
 
 
 # ------------------------------------------------------------------------------------------------ R03.3
